@@ -1905,7 +1905,15 @@ class Compiler:
             key = ast.Constant(node.names[0])
 
         index = identifier("__index", id(node))
-        assignment = [ast.Assign(targets=targets, value=load("__item"))]
+        # The item is unpacked once (it may be a one-shot iterator); a
+        # further context takes over the values.
+        assignment = [ast.Assign(targets=targets[:1], value=load("__item"))]
+        for context in contexts[1:]:
+            for name in node.names:
+                assignment.append(ast.Assign(
+                    targets=[subscript(str(name), load(context), ast.Store())],
+                    value=subscript(str(name), load(contexts[0]), ast.Load())
+                ))
 
         # Make repeat assignment in outer loop
         names = node.names
